@@ -68,6 +68,7 @@ class Ref:
             resolve = T.resolve_plain
         self.resolve = resolve
         self.stats = {}
+        self.track = False
 
     # -- model helpers -------------------------------------------------------
     def kind(self, name):
@@ -171,6 +172,11 @@ class Ref:
 
     def class_matches(self, node, name):
         tag = node[1]
+        if self.track:
+            n = len(self.candidates(node, name))
+            self.stats['max_candidates'] = max(self.stats.get('max_candidates', 0), n)
+            if not is_core(tag):
+                self.stats['tagged_class_position'] = True
 
         def compat(n):
             return is_core(tag) or tag == '!' + n
@@ -206,6 +212,8 @@ class Ref:
                 out |= self.matches(node, mt)
             if '"bool"' in out and '"buf"' in out:
                 out.discard('"buf"')
+            if self.track and len(out) > 1:
+                self.stats['ambiguous_union'] = True
             return out
         if k in ('list', 'seq', 'mseq'):
             if node[0] != 'q':
